@@ -54,10 +54,18 @@ def tasks(tier):
         out.append({"family": "surface-classified-once", "cfg": cfg, "entry": e, "bound": 1})
     # attempt_timeout_s configured (sync, owned executor) and the operation itself raises
     # TimeoutError well within the timeout: it is that attempt's own exception
-    for M, e in itertools.product([1, 2, 3], ["Retry.call", "Policy.call", "RetryPolicy.call"]):
-        cfg = dict(M=M, alphabet=["ok", "x:T", "timeout", "r:T"], attempt_timeout=4, durs=[0, 1],
-                   max_unknown=None, handler="call")
+    for M, e in itertools.product([1, 2, 3], ["Retry.call", "Policy.call", "RetryPolicy.call"] + ["AsyncRetry.call", "AsyncPolicy.call", "adeco"]):
+        cfg = dict(M=M, alphabet=["ok", "x:T", "timeout", "r:T"], attempt_timeout=2, durs=[0, 1, 10],
+                   max_unknown=None, handler="call" if "deco" not in e else None,
+                   sleeper="call" if "deco" not in e else "policy",
+                   loop=e.startswith("Async") or e == "adeco",
+                   sleeper_async=e.startswith("Async") or e == "adeco")
         out.append({"family": "surface-attempt-timeout", "cfg": cfg, "entry": e, "bound": 1})
+    # the operation returns None and the result classifier rejects None
+    for M, e in itertools.product([2, 3], ["Retry.call", "Policy.call", "RetryPolicy.call"] + ["AsyncRetry.call", "AsyncPolicy.call",]):
+        cfg = dict(M=M, alphabet=["ok", "rn:T", "x:T", "rn:P"], force_rc=True, max_unknown=None,
+                   handler="call")
+        out.append({"family": "surface-none-result", "cfg": cfg, "entry": e, "bound": 1})
     return out
 
 
